@@ -324,4 +324,44 @@ theorem subscribers_refines (mt : MemTopics) (subs : List Sub) (t : List UInt8) 
     unfold sel at this
     rw [this]
 
+/-! ### outcomes of subscribe / unsubscribe -/
+
+theorem subscribe_outcome (mt : MemTopics) (f : List UInt8) (q s : Nat) (hg : good f = true) :
+    (mt.subscribe 2 f q s).2 = if q ≤ 2 ∧ validFilter f = true then some q else none := by
+  simp only [MemTopics.subscribe, validQos_iff, SNode.sinsert]
+  by_cases hq : q ≤ 2
+  · have hq' : ¬ q > 2 := by omega
+    simp only [hq, decide_true, Bool.not_true, Bool.false_eq_true, ↓reduceIte, hq', true_and]
+    cases hv : validFilter f with
+    | true => rw [(levels_valid f hg hv).2]
+    | false => rw [levels_invalid f hg hv]
+  · simp [hq]
+
+theorem unsubscribe_outcome (mt : MemTopics) (subs : List Sub) (f : List UInt8) (s : Nat)
+    (h : Inv mt.sroot subs) (hg : good f = true) :
+    (mt.unsubscribe f (some s)).2 = subs.any (fun e => e.sub == s && e.filter == f) := by
+  simp only [MemTopics.unsubscribe, SNode.sremove]
+  cases hv : validFilter f with
+  | false =>
+    rw [levels_invalid f hg hv, sremoveL_false_snd]
+    symm
+    rw [List.any_eq_false]
+    intro e he
+    have : e.filter ≠ f := by intro x; rw [← x, h.valid e he] at hv; exact absurd hv (by simp)
+    simp [this]
+  | true =>
+    obtain ⟨e1, e2⟩ := levels_valid f hg hv
+    rw [e1, e2, sremoveL_snd _ _ _ h.wf, h.perm.any_eq]
+    unfold absS
+    rw [List.any_map]
+    congr 1
+    funext e
+    simp only [Function.comp, hit, subHit]
+    by_cases hf : e.filter = f
+    · subst hf; simp [Bool.and_comm]
+    · have : split e.filter ≠ split f := fun hs => hf (split_inj _ _ hs)
+      have hb : (split e.filter == split f) = false := by simpa using this
+      have hb2 : (e.filter == f) = false := by simpa using hf
+      simp [hb, hb2]
+
 end Mqtt.Proofs.Topics
